@@ -175,7 +175,7 @@ func (r *Reader) parseSlides() error {
 		r.parseSlideRelationships(slidePath, i)
 
 		// Parse speaker notes if available
-		r.parseSlideNotes(i, slide)
+		r.parseSlideNotes(slidePath, i, slide)
 
 		r.slides = append(r.slides, slide)
 	}
@@ -469,7 +469,7 @@ func (r *Reader) parseSlideRelationships(slidePath string, index int) {
 }
 
 // parseSlideNotes parses speaker notes for a slide.
-func (r *Reader) parseSlideNotes(index int, slide *Slide) {
+func (r *Reader) parseSlideNotes(slidePath string, index int, slide *Slide) {
 	rels := r.slideRels[index]
 	if rels == nil {
 		return
@@ -488,11 +488,11 @@ func (r *Reader) parseSlideNotes(index int, slide *Slide) {
 		return
 	}
 
-	// Normalize path
-	if strings.HasPrefix(notesPath, "../") {
-		notesPath = "ppt/" + strings.TrimPrefix(notesPath, "../")
+	// Normalize path: the target is relative to the slide part ("/..." is package-absolute)
+	if strings.HasPrefix(notesPath, "/") {
+		notesPath = strings.TrimPrefix(notesPath, "/")
 	} else if !strings.HasPrefix(notesPath, "ppt/") {
-		notesPath = "ppt/slides/" + notesPath
+		notesPath = path.Join(path.Dir(slidePath), notesPath)
 	}
 
 	data, err := r.getFileContent(notesPath)
